@@ -98,11 +98,7 @@ REG.add(Contract(f"{LD}._append_missing_dependencies", module=M_LD, kind="method
 REG.add(Contract(f"{LD}._get_any_missing_dependencies_in_user_specified_order", module=M_LD, kind="method",
                  params=dict(self=LD, not_explicitly_requested_dependencies="Dict[Mod,Bag[Dep]]"), returns="Set[Dep]",
                  # C05: the required access to 'something else' is satisfied ONLY by an import that leaves the layer (an intra-layer import never counts)
-                 ensures=["implies(exists(Dep, lambda x: realised_rel_m(self._module_requirement, not_explicitly_requested_dependencies, x) and cross_layer(self._layer_to_module_mapping, x)), "
-                          "not nonempty(result))",
-                          "implies(not exists(Dep, lambda x: realised_rel_m(self._module_requirement, not_explicitly_requested_dependencies, x) and cross_layer(self._layer_to_module_mapping, x)), "
-                          "nonempty(result) == (exists(Mod, lambda m: m in not_explicitly_requested_dependencies) and nonempty(self._module_requirement._importees_as_specified_by_user)))",
-                          # exact (both inclusions): one (subject module, user-specified object) pair per key, in user order, iff no reported import leaves the layer
+                 ensures=[# exact (both inclusions): one (subject module, user-specified object) pair per key, in user order, iff no reported import leaves the layer
                           "forall(Dep, lambda x: (x in result) == layer_missing_rel(self._module_requirement, self._layer_to_module_mapping, not_explicitly_requested_dependencies, x))"],
                  locals=dict(dependencies="Bag[Dep]"), cases=["self._module_requirement._importer_specified_as_rule_subject"], properties=["C05"]))
 for _name, _K, _rel in (("_should_not_requirement_violations", "Dep", "realised_rel"), ("_should_only_requirement_violations_by_not_explicitly_requested_dependency", "Mod", "realised_rel_m"),
@@ -238,7 +234,12 @@ REG.macro("dep_layer", ["subj", "L", "k"], "layer_of(L, mid(rel_mod_b(subj, k)))
 # 'no realised import into object layer l': the group of l is non-empty, l is a layer of the mapping, and NO pair of the group has a realisation -> every pair of the group is reported
 REG.define("layer_abstract_b", dict(subj="Bool", L="Opaque[LayerMapping]", r="Dict[Dep,Bag[Dep]]", x="Dep"),
            "exists(Dep, lambda k: (k in r) and x == order_b(subj, k) and (not is_none(dep_layer(subj, L, k))) and (unwrap(dep_layer(subj, L, k)) in layers_of(L)) and "
-           "forall(Dep, lambda k2: implies((k2 in r) and dep_layer(subj, L, k2) == dep_layer(subj, L, k), not nonempty(r[k2]))))")
+           "grp_unreal_d(subj, L, r, dep_layer(subj, L, k)))")
+# no pair of the group of object layer l has a realisation (dict level / graph level)
+REG.define("grp_unreal_d", dict(subj="Bool", L="Opaque[LayerMapping]", r="Dict[Dep,Bag[Dep]]", l="Opt[LayerName]"),
+           "forall(Dep, lambda k2: implies((k2 in r) and dep_layer(subj, L, k2) == l, not nonempty(r[k2])))")
+REG.define("grp_unreal_g", dict(g="Graph", S="Bag[Filter]", O="Bag[Filter]", subj="Bool", L="Opaque[LayerMapping]", l="Opt[LayerName]"),
+           "forall(Filter, Filter, lambda s2, o2: implies((s2 in S) and (o2 in O) and dep_layer(subj, L, (f2m(s2), f2m(o2))) == l, not exists(Dep, lambda d: deps_rel_d(g, s2, o2, d))))")
 REG.macro("layer_abstract_rel", ["mr", "L", "d", "x"], "layer_abstract_b(mr._importer_specified_as_rule_subject, L, d, x)")
 # 'no access to anything else': reported (one pair per subject module and user-specified object) iff NO reported other-import crosses a layer boundary
 REG.define("layer_missing_b", dict(subj="Bool", objs="Bag[Filter]", L="Opaque[LayerMapping]", r="Dict[Mod,Bag[Dep]]", x="Dep"),
@@ -423,3 +424,61 @@ REG.add(Contract(f"{LRM}._create_module_name_regex_conversion_mapping", module=M
 REG.add(Contract(f"{LR}.__init__", module=M_LA, kind="method", params=dict(self=LR, rule_matcher_class="Opaque[Class]"), returns="None", modifies=["self"],
                  defaults=dict(rule_matcher_class="LayerRuleMatcher"),
                  ensures=["is_none(self._rule)", "is_none(self._architecture)", "self._rule_matcher_class == rule_matcher_class"], properties=["C05", "C16", "C13"]))
+
+# ================================================================ C05: the layer buckets as functions of the GRAPH (no dicts) -- LayerRuleMatcher._find_rule_violations
+# S = importers, O = importees of the converted requirement, objs = the rule objects as specified by the user, L = the updated layer mapping
+REG.define("G_layer_abstract_b", dict(g="Graph", S="Bag[Filter]", O="Bag[Filter]", subj="Bool", L="Opaque[LayerMapping]", x="Dep"),
+           "exists(Filter, Filter, lambda s, o: (s in S) and (o in O) and x == order_b(subj, (f2m(s), f2m(o))) and (not is_none(dep_layer(subj, L, (f2m(s), f2m(o))))) and "
+           "(unwrap(dep_layer(subj, L, (f2m(s), f2m(o)))) in layers_of(L)) and grp_unreal_g(g, S, O, subj, L, dep_layer(subj, L, (f2m(s), f2m(o)))))")
+REG.define("G_layer_missing_f", dict(g="Graph", S="Bag[Filter]", O="Bag[Filter]", objs="Bag[Filter]", L="Opaque[LayerMapping]", x="Dep"),
+           "(not exists(Dep, lambda y: G_or_f(g, S, O, y) and cross_layer(L, y))) and exists(Filter, Filter, lambda s, ob: (s in S) and (ob in objs) and x == (f2m(s), f2m(ob)))")
+REG.define("G_layer_missing_r", dict(g="Graph", S="Bag[Filter]", O="Bag[Filter]", objs="Bag[Filter]", L="Opaque[LayerMapping]", x="Dep"),
+           "(not exists(Dep, lambda y: G_or_r(g, S, O, y) and cross_layer(L, y))) and exists(Filter, Filter, lambda o, ob: (o in O) and (ob in objs) and x == (f2m(o), f2m(ob)))")
+_LPL = dict(g="Graph", S="Bag[Filter]", O="Bag[Filter]", subj="Bool", L="Opaque[LayerMapping]", r="Dict[Dep,Bag[Dep]]")
+REG.lemma("LL_grp", params=_LPL, requires=["GD_post(g, S, O, r)"],
+          ensures=["forall(LayerName, lambda l: implies(grp_unreal_d(subj, L, r, l), grp_unreal_g(g, S, O, subj, L, l)))", "forall(LayerName, lambda l: implies(grp_unreal_g(g, S, O, subj, L, l), grp_unreal_d(subj, L, r, l)))"], cases=["subj"], properties=["C05"])
+REG.lemma("LL_abstract", params=_LPL, requires=["GD_post(g, S, O, r)"],
+          ensures=["forall(Dep, lambda x: layer_abstract_b(subj, L, r, x) == G_layer_abstract_b(g, S, O, subj, L, x))"], use=["LL_grp(g, S, O, subj, L, r)"],
+          opaque=["grp_unreal_d", "grp_unreal_g"], cases=["subj"], properties=["C05"])
+_LML = dict(g="Graph", S="Bag[Filter]", O="Bag[Filter]", objs="Bag[Filter]", L="Opaque[LayerMapping]", r="Dict[Mod,Bag[Dep]]")
+REG.lemma("LL_missing_f", params=_LML, requires=["AD_post(g, S, O, r)"],
+          ensures=["forall(Dep, lambda x: layer_missing_b(True, objs, L, r, x) == G_layer_missing_f(g, S, O, objs, L, x))"],
+          use=["L_or_f(g, S, O, objs, r)"], opaque=["realised_m_b", "G_or_f"], properties=["C05"])
+REG.lemma("LL_missing_r", params=_LML, requires=["AO_post(g, S, O, r)"],
+          ensures=["forall(Dep, lambda x: layer_missing_b(False, objs, L, r, x) == G_layer_missing_r(g, S, O, objs, L, x))"],
+          use=["L_or_r(g, S, O, objs, r)"], opaque=["realised_m_b", "G_or_r"], properties=["C05"])
+REG.macro("G_layer_abstract", ["g", "u", "L", "x"], "G_layer_abstract_b(g, u._importers, u._importees, u._importer_specified_as_rule_subject, L, x)")
+REG.macro("G_layer_missing", ["g", "u", "L", "x"],
+          "(u._importer_specified_as_rule_subject and G_layer_missing_f(g, u._importers, u._importees, u._importees_as_specified_by_user, L, x)) or "
+          "((not u._importer_specified_as_rule_subject) and G_layer_missing_r(g, u._importers, u._importees, u._importees_as_specified_by_user, L, x))")
+REG.macro("layer_FV_post", ["g", "u", "b", "L", "r"],
+          "forall(Dep, lambda x: (x in r.should_not_violations) == (b.should_not and (not b.behavior_exception) and G_realised(g, u, x) and cross_layer(L, x))) "
+          "and forall(Dep, lambda x: (x in r.should_violations) == (b.should and (not b.behavior_exception) and G_layer_abstract(g, u, L, x))) "
+          "and forall(Dep, lambda x: (x in r.should_only_violations_by_no_import) == (b.should_only and (not b.behavior_exception) and G_layer_abstract(g, u, L, x))) "
+          "and forall(Dep, lambda x: (x in r.should_only_violations_by_forbidden_import) == (b.should_only and (not b.behavior_exception) and G_other_realised(g, u, x) and cross_layer(L, x))) "
+          "and forall(Dep, lambda x: (x in r.should_except_violations) == (b.should and b.behavior_exception and G_layer_missing(g, u, L, x))) "
+          "and forall(Dep, lambda x: (x in r.should_only_except_violations_by_no_import) == (b.should_only and b.behavior_exception and G_layer_missing(g, u, L, x))) "
+          "and forall(Dep, lambda x: (x in r.should_only_except_violations_by_forbidden_import) == (b.should_only and b.behavior_exception and G_realised(g, u, x) and cross_layer(L, x))) "
+          "and forall(Dep, lambda x: (x in r.should_not_except_violations) == (b.should_not and b.behavior_exception and G_other_realised(g, u, x) and cross_layer(L, x)))")
+# the table handed to _update_layer_mapping, as a relation over the two conversion results (the local dict itself is not visible in the postcondition)
+REG.macro("lm_expanded2", ["F", "A", "B", "m"],
+          "exists(Filter, lambda f: (f in F) and (((not is_regex(f)) and m == f2m(f)) or (is_regex(f) and (((fid(f) in A) and (m in A[fid(f)])) or ((fid(f) in B) and (m in B[fid(f)]))))))")
+REG.macro("lm_updated2", ["L0", "A", "B", "L1"],
+          "forall(LayerName, lambda l: (l in layers_of(L1)) == (l in layers_of(L0))) and "
+          "forall(LayerName, Mod, lambda l, m: implies(l in layers_of(L0), (m in lm_mods(L1, l)) == lm_expanded2(lm_filters(L0, l), A, B, m)))")
+_UM = "self._updated_module_requirement"
+REG.add(Contract(f"{LRM}._find_rule_violations", module=M_RM2, qualname="RuleMatcher._find_rule_violations", kind="method",
+                 params=dict(self=LRM, evaluable="EvaluableArchitectureGraph"), returns="RuleViolations", modifies=["self"],
+                 requires=["WF(evaluable._graph)", f"no_regex({_UM}._importers)", f"no_regex({_UM}._importees)"],
+                 raises=[("NetworkXError", f"fv_raises(evaluable._graph, {_UM}, self._behavior_requirement)")],
+                 ensures=[f"layer_FV_post(evaluable._graph, {_UM}, self._behavior_requirement, self._updated_layer_mapping, result)",
+                          # C05: the mapping the detector judges with has the architecture's layers, regex layers replaced by the modules the two conversions matched
+                          "lm_updated2(self._layer_mapping, self._conversion_mapping_importers, self._conversion_mapping_importees, self._updated_layer_mapping)"]
+                 + [f"self.{f} == old(self).{f}" for f in _RM_FIELDS_L if f != "_updated_layer_mapping"],
+                 use_at_end=[f"{L}(evaluable._graph, {_UM}._importers, {_UM}._importees, {_UM}._importer_specified_as_rule_subject, unwrap(explicitly_requested_dependencies))" for L in ("L_realised",)]
+                 + [f"LL_abstract(evaluable._graph, {_UM}._importers, {_UM}._importees, {_UM}._importer_specified_as_rule_subject, self._updated_layer_mapping, unwrap(explicitly_requested_dependencies))"]
+                 + [f"{L}(evaluable._graph, {_UM}._importers, {_UM}._importees, {_UM}._importees_as_specified_by_user, unwrap(not_explicitly_requested_dependencies))" for L in ("L_or_f", "L_or_r")]
+                 + [f"{L}(evaluable._graph, {_UM}._importers, {_UM}._importees, {_UM}._importees_as_specified_by_user, self._updated_layer_mapping, unwrap(not_explicitly_requested_dependencies))" for L in ("LL_missing_f", "LL_missing_r")],
+                 opaque=["realised_b", "realised_m_b", "layer_abstract_b", "layer_missing_b", "G_realised_b", "G_or_f", "G_or_r", "G_layer_abstract_b", "G_layer_missing_f", "G_layer_missing_r"],
+                 cases=[f"{_UM}._importer_specified_as_rule_subject", "self._behavior_requirement.behavior_exception"],
+                 properties=["C05"]))
